@@ -127,5 +127,15 @@ example : isTrue (Pat.dojistar (upto demo 11) none none) = true := by decide
 example : isFalse (runAnalysis (.dojistar none) demo 12) = true := by decide
 example : isTrue (runAnalysis (.dojistar (some 2)) demo 12) = true := by decide
 example : isTrue (runAnalysis .positive demo 10) = true ∧ isTrue (runAnalysis .negative demo 12) = true := by decide
+-- movement functions on named readings: the close rises into candle 10 and into candle 11, falls into candle 12;
+-- the same at the negative alias and at the latest position of the truncated list
+example : isTrue (runAnalysis (.rising "close" 3) demo 11) = true := by decide
+example : isTrue (runAnalysis (.rising "close" 3) demo (-2)) = true := by decide
+example : isTrue (runAnalysis (.rising "close" 3) (upto demo 11) (-1)) = true := by decide
+example : isFalse (runAnalysis (.rising "close" 3) demo 12) = true := by decide
+example : isTrue (runAnalysis (.cross "close" "open" 1) demo 10) = true := by decide
+example : isTrue (runAnalysis (.cross "close" "open" 1) (upto demo 10) (-1)) = true := by decide
+example : isFalse (runAnalysis (.crossover "close" "open" 1) demo 10) = true := by decide   -- strict: close = open at candle 9
+example : isTrue (runAnalysis (.cross "close" "open" 3) demo 12) = true := by decide
 
 end Hex.C16
